@@ -44,6 +44,9 @@ func checkC08(c *Ctx, r *Report) {
 	r.rule("C08.R3.label-room", 1, "packDomainName's room tests against len(msg) are strict")
 	labelRoomExact(c, r, "C08.R3.label-room", "a name that fits its buffer exactly is refused: PackRR into a buffer of Len(rr) octets fails for a record whose last name is the root")
 	borrow(c, r, c01R7, "C01.R7.uint-pack", "C08.R3.uint-pack-width", 5, "packUintN needs and writes exactly N/8 octets", nil, "a packer that touches octets beyond its field needs room Len() does not count: Pack fails with a buffer error on a valid message, or the next field is overwritten")
+	aplExtentShared(c, r, "C08.R1.apl-extent", "for every prefix whose masked address ends in zero octets Len() is larger than what Pack writes, although the record holds only integers and addresses")
+	emptyNameAgree(c, r, "C08.R1.empty-name")
+	roomTestsNeeded(c, r, "C08.R3.room-tests", "PackRR into a buffer of exactly Len(rr) octets (ToRFC3597 does that) fails with 'buffer size too small' for a valid record whose last field is empty (CAA 0 issue \"\", URI with an empty target)")
 }
 
 func c08Header(c *Ctx, r *Report) {
@@ -251,7 +254,7 @@ func c08R3(c *Ctx, r *Report) {
 		problems = append(problems, fmt.Sprintf("%d buffer allocations, expected one", len(makes)))
 	} else {
 		m := makes[0]
-		// size = msgLenWithCompressionMap(dns, nil) + k, k >= 1
+		// size = msgLenWithCompressionMap(dns, nil) + k, k >= 0
 		okSize := false
 		if b, ok := m.Len.(*ssa.BinOp); ok && b.Op == token.ADD {
 			x, y := b.X, b.Y
@@ -259,13 +262,18 @@ func c08R3(c *Ctx, r *Report) {
 				x, y = y, x
 			}
 			if call, ok := x.(*ssa.Call); ok && calleeNameSSA(&call.Call) == "msgLenWithCompressionMap" && isNilConst(call.Call.Args[1]) {
-				if k, ok := constIntOf(y); ok && k >= 1 {
+				if k, ok := constIntOf(y); ok && k >= 0 {
 					okSize = true
 				}
 			}
 		}
+		// the uncompressed length itself is enough: no packer asks for room it does not write into
+		// (C08.R3.room-tests, C08.R3.label-room decide that)
+		if call, ok := m.Len.(*ssa.Call); ok && calleeNameSSA(&call.Call) == "msgLenWithCompressionMap" && isNilConst(call.Call.Args[1]) {
+			okSize = true
+		}
 		if !okSize {
-			problems = append(problems, fmt.Sprintf("buffer size %v is not msgLenWithCompressionMap(dns, nil) + 1 (the uncompressed length plus the head-room octet the to-end packers need)", m.Len))
+			problems = append(problems, fmt.Sprintf("buffer size %v is not msgLenWithCompressionMap(dns, nil) or that plus a constant (the uncompressed length is what the packers may need)", m.Len))
 		}
 		lenOfBuf := func(v ssa.Value) bool {
 			call, ok := v.(*ssa.Call)
